@@ -1270,6 +1270,9 @@ def hp2dec_v(hp):
     total = np.rint(abs(hp) * 1e13 / unit) * unit
     degree, mmss = divmod(total, 1e13)
     minute, second = divmod(mmss, 1e11)
+    if np.any(minute >= 60) or np.any(second >= 60e9):
+        raise ValueError('Invalid HP Notation: minutes or seconds field of '
+                         '60 or more')
     dec = degree + (minute / 60) + (second / 3600e9)
     dec[hp <= 0] = -dec[hp <= 0]
     return dec
